@@ -203,3 +203,89 @@ Qed.
 (* get_in_bounds, right ascension in a slice that does not embrace 0/360 (w = minSize / cosDecMin) *)
 Theorem ra_pad_covers : forall a b w ra, 0 < w -> a <= ra <= b -> pad_lo a b w <= ra < pad_hi a b w.
 Proof. intros a b w ra Hw [Ha Hb]. destruct (pad_covers a b w Hw ltac:(lra)) as [H1 [H2 _]]. lra. Qed.
+
+(* ------------------------------------------------------------------ from the two margin facts to `coverage` (no wrap) *)
+Close Scope Q_scope.
+
+Lemma gb_rows_nth : forall raB ra mg k i rows, gb_rows raB ra mg i k = Some rows ->
+  forall j, (j < k)%nat ->
+    let B := nth (i + j) raB [] in
+    let n := (length B - 1)%nat in
+    let r0 := cell_index ra (qbnd B 0) (qbnd B n) n in
+    (0 <= r0 <= Z.of_nat n - 1)%Z /\
+    nth_error rows j = Some (ra_down B ra mg (Z.to_nat r0), ra_up B ra mg n n (Z.to_nat r0)).
+Proof.
+  induction k as [|k IH]; intros i rows H j Hj; [lia|].
+  cbn [gb_rows] in H.
+  set (B0 := nth i raB []) in *. set (n0 := (length B0 - 1)%nat) in *.
+  set (r00 := cell_index ra (qbnd B0 0) (qbnd B0 n0) n0) in *.
+  destruct ((r00 <? 0)%Z || (Z.of_nat n0 - 1 <? r00)%Z) eqn:E; [discriminate|].
+  apply orb_false_iff in E. destruct E as [E1 E2]. apply Z.ltb_ge in E1. apply Z.ltb_ge in E2.
+  destruct (gb_rows raB ra mg (S i) k) as [rest|] eqn:Er; [|discriminate].
+  inversion H; subst rows. clear H. destruct j as [|j].
+  - cbv zeta. rewrite Nat.add_0_r. fold B0. fold n0. fold r00. cbn [nth_error]. split; [lia|reflexivity].
+  - cbv zeta. replace (i + S j)%nat with (S i + j)%nat by lia. cbn [nth_error]. apply (IH (S i) rest Er j). lia.
+Qed.
+
+Lemma In_rows_cells : forall nRa ext rows d0 j lo hi c,
+  nth_error rows j = Some (lo, hi) -> In c (row_cells nRa ext (d0 + Z.of_nat j) lo hi) ->
+  In c (rows_cells nRa ext d0 rows).
+Proof.
+  induction rows as [|[l h] rows IH]; intros d0 j lo hi c Hn Hc; [destruct j; discriminate|].
+  cbn [rows_cells]. apply in_app_iff. destruct j as [|j].
+  - cbn [nth_error] in Hn. inversion Hn; subst. left. rewrite Z.add_0_r in Hc. exact Hc.
+  - right. cbn [nth_error] in Hn. apply (IH (d0 + 1)%Z j lo hi c Hn).
+    replace (d0 + 1 + Z.of_nat j)%Z with (d0 + Z.of_nat (S j))%Z by lia. exact Hc.
+Qed.
+
+Lemma In_row_cells_plain : forall nRa d lo hi r,
+  (lo <= r <= hi)%Z -> (0 <= r <= nRa d - 1)%Z -> In (d, r) (row_cells nRa 0 d lo hi).
+Proof.
+  intros nRa d lo hi r Hr Hn. unfold row_cells. apply in_flat_map. exists r. split.
+  - apply In_zrange. lia.
+  - assert (Hw : wrap (nRa d) r = r).
+    { unfold wrap. destruct (r <? 0)%Z eqn:E1; [apply Z.ltb_lt in E1; lia|].
+      destruct (nRa d - 1 <? r)%Z eqn:E2; [apply Z.ltb_lt in E2; lia|reflexivity]. }
+    cbv zeta. rewrite Hw. unfold in_range.
+    assert (E : ((0 <=? r)%Z && (r <=? nRa d - 1)%Z) = true) by (apply andb_true_iff; split; apply Z.leb_le; lia).
+    rewrite E. left. reflexivity.
+Qed.
+
+Definition nRa_of_bounds (raB : list (list Q)) (d : Z) : Z := Z.of_nat (length (nth (Z.to_nat d) raB []) - 1).
+
+(* If the exact walks succeed for the list-2 point (ra, dec), then every cell (s, r) of the grid that holds a point
+   (ra1, dec1) with |dec1 - dec| < m and |ra1 - ra| < mg (no wrap) is among the cells the point is entered in.
+   With C04_dec_margin_covers / C04_ra_margin_covers supplying the two inequalities this is `coverage` for exact
+   arithmetic away from the 0/360 seam. *)
+Theorem coverage_exact_nowrap : forall decB raB ra dec m mg b s r dec1 ra1,
+  let nDec := (length decB - 1)%nat in
+  let B := nth s raB [] in
+  let n := (length B - 1)%nat in
+  mono decB nDec -> mono B n ->
+  getbounds_model decB raB ra dec m mg = Some b ->
+  (s < nDec)%nat -> (qbnd decB s <= dec1 <= qbnd decB (S s))%Q -> (dec - dec1 < m)%Q -> (dec1 - dec < m)%Q ->
+  (r < n)%nat -> (qbnd B r <= ra1 <= qbnd B (S r))%Q -> (ra - ra1 < mg)%Q -> (ra1 - ra < mg)%Q ->
+  In (Z.of_nat s, Z.of_nat r) (fill_cells (nRa_of_bounds raB) b).
+Proof.
+  intros decB raB ra dec m mg b s r dec1 ra1 nDec B n Hmd Hmr Hgb Hs Hd1 Hd2 Hd3 Hr Hr1 Hr2 Hr3.
+  unfold getbounds_model in Hgb. fold nDec in Hgb.
+  set (c0 := cell_index dec (qbnd decB 0) (qbnd decB nDec) nDec) in *.
+  destruct ((c0 <? 0)%Z || (Z.of_nat nDec - 1 <? c0)%Z) eqn:E; [discriminate|].
+  apply orb_false_iff in E. destruct E as [E1 E2]. apply Z.ltb_ge in E1. apply Z.ltb_ge in E2.
+  set (dmin := dec_down decB dec m (Z.to_nat c0)) in *.
+  set (dmax := dec_up decB dec m nDec nDec (Z.to_nat c0)) in *.
+  destruct (gb_rows raB ra mg dmin (S dmax - dmin)) as [rows|] eqn:Eg; [|discriminate].
+  inversion Hgb; subst b. clear Hgb.
+  assert (Hrange : (dmin <= s <= dmax)%nat).
+  { apply (dec_coverage decB nDec dec m (Z.to_nat c0) s dec1); auto. lia. }
+  destruct (gb_rows_nth raB ra mg _ dmin rows Eg (s - dmin)%nat ltac:(lia)) as [Hr0 Hnth].
+  replace (dmin + (s - dmin))%nat with s in * by lia. fold B n in Hr0, Hnth.
+  set (r0 := cell_index ra (qbnd B 0) (qbnd B n) n) in *.
+  assert (Hcov : (ra_down B ra mg (Z.to_nat r0) <= Z.of_nat r <= ra_up B ra mg n n (Z.to_nat r0))%Z).
+  { apply (ra_coverage B n ra mg (Z.to_nat r0) r ra1); auto. lia. }
+  unfold fill_cells. cbn [fst snd].
+  apply (In_rows_cells (nRa_of_bounds raB) 0 rows (Z.of_nat dmin) (s - dmin)%nat _ _ _ Hnth).
+  replace (Z.of_nat dmin + Z.of_nat (s - dmin))%Z with (Z.of_nat s) by lia.
+  apply In_row_cells_plain; [exact Hcov|].
+  unfold nRa_of_bounds. rewrite Nat2Z.id. fold B n. lia.
+Qed.
